@@ -75,3 +75,32 @@ func HarnessC13Agreement() {
 	vassert(ok && v.(string) == "leader-of-wanted-shard", "C13/addresses-leader-of-that-shard")
 	vreach("end")
 }
+
+// HarnessC13AgreementAfterResharding: the limiter is redeployed with another shard count while the gateway keeps
+// running: after the next sync the gateway maps every name - also one it already looked up under the old count - to the
+// shard the server now computes, and addresses the leader the server now reports for that shard.
+// verif:bounds name 0..4/8 bytes; shard counts 1 <= N1, N2 < 2^31 symbolic; one lookup under N1, sync, lookups under N2
+// verif:replace github.com/kubewharf/kubegateway/pkg/ratelimiter/clientsets.getServerInfo => verifGetServerInfo
+// verif:replace (*github.com/kubewharf/kubegateway/pkg/ratelimiter/clientsets.clientSets).getOrCreateClient => verifGetOrCreateClient
+func HarnessC13AgreementAfterResharding() {
+	n := nondetRange("len", 0, vbound(4, 8))
+	name := nondetByteString("name", n)
+	n1, n2 := nondetInt("N1"), nondetInt("N2")
+	vassume(n1 >= 1 && n1 < 1<<31 && n2 >= 1 && n2 < 1<<31)
+	c := &clientSets{service: "svc", lookupFunc: verifLookup}
+	want1 := limitutil.GetShardID(name, n1)
+	ghostServerInfo = &proxyv1alpha1.RateLimitServerInfo{ShardCount: int32(n1), Endpoints: []proxyv1alpha1.EndpointInfo{{ShardID: int32(want1), Leader: "old-leader"}}}
+	c.sync()
+	got1, err1 := c.ShardIDFor(name)
+	vassert(err1 == nil && got1 == want1, "C13/gateway-and-server-agree")
+	// redeployed with n2 shards
+	want2 := limitutil.GetShardID(name, n2)
+	ghostServerInfo = &proxyv1alpha1.RateLimitServerInfo{ShardCount: int32(n2), Endpoints: []proxyv1alpha1.EndpointInfo{{ShardID: int32(want2), Leader: "new-leader"}}}
+	c.sync()
+	got2, err2 := c.ShardIDFor(name)
+	vassert(err2 == nil, "C13/synced-answers")
+	vassert(got2 == want2, "C13/gateway-and-server-disagree-after-resharding")
+	v, ok := c.leaderEndpoints.Load(got2)
+	vassert(ok && v.(string) == "new-leader", "C13/addresses-leader-of-that-shard")
+	vreach("end")
+}
